@@ -21,6 +21,10 @@ THEOREMS = [
     "Verif.C05.omit_spec",
     "Verif.C05.omit_none",
     "Verif.C05.omit_sublist",
+    "Verif.C05.omit_tree_explicit",
+    "Verif.C05.omit_tree_present",
+    "Verif.C05.mem_ancestors",
+    "Verif.C05.node_status_spec",
     "Verif.C05.crop_is_slice",
     "Verif.C05.crop_absent_iff_empty",
     "Verif.C05.crop_crop",
@@ -452,6 +456,8 @@ def file_plan(case):
         pats = case["omit"]
         paths = case["all_paths"]
         plan.append((f"c05.omit {enc_listlist([[ord(c) for c in p] for p in pats])} {enc_listlist([[ord(c) for c in p] for p in paths])}", "omit", None))
+        # the whole output tree, bare parents included
+        plan.append((f"c05.omittree {enc_listlist([[ord(c) for c in p] for p in pats])} {enc_listlist([[ord(c) for c in n[0]] for n in case['tree']])}", "omittree", None))
     elif case["mode"] == "crop":
         a, b = case["crop"]
         for path in sorted(exp):
@@ -497,6 +503,8 @@ def ops(case):
     if k == "calchan":
         w = case.get("win")
         return [f"c05.calchan {enc_groups(case['groups'])} {case['ch'].replace(' ', '_')} {src_tokens(case['src'])}" + (f" {w[0]} {w[1]}" if w else "")]
+    if k == "omittree":
+        return [f"c05.omittree {enc_listlist([[ord(c) for c in p] for p in case['pats']])} {enc_listlist([[ord(c) for c in n[0]] for n in case['tree']])}"]
     if k == "dset":
         return [f"c05.todset {src_tokens(case['src'])}", f"c05.readback {src_tokens(case['src'])}"]
     if k == "class":
@@ -575,6 +583,8 @@ def impl(case):
             return [_omit_impl(case)]
         if k == "dset":
             return _dset_impl(case)
+        if k == "omittree":
+            return _omittree_impl(case)
         if k == "calchan":
             return _calchan_impl(case)
         if k == "class":
@@ -615,6 +625,40 @@ def _omit_impl(case):
         f.h5.close()
         with h5py.File(out, "r") as g:
             return enc_list([p in g for p in case["paths"]], enc_bool)
+    finally:
+        shutil.rmtree(d, ignore_errors=True)
+
+
+def _omittree_impl(case):
+    """write_h5's traversal on a small real file with nested groups (with and without attributes)"""
+    import h5py
+
+    lk = _lk()
+    d = tempfile.mkdtemp(prefix="c05_")
+    try:
+        src = os.path.join(d, "a.h5")
+        with h5py.File(src, "w") as f:
+            f.attrs["Bluelake version"] = "x"
+            f.attrs["File format version"] = 2
+            for path, kind, has_attrs in case["tree"]:
+                if kind == "g":
+                    g = f.require_group(path)
+                    if has_attrs:
+                        g.attrs["note"] = "group " + path
+                else:
+                    ds = f.create_dataset(path, data=np.arange(2.0))
+                    ds.attrs["Kind"] = "Continuous"
+                    ds.attrs["Start time (ns)"] = 0
+                    ds.attrs["Stop time (ns)"] = 2
+                    ds.attrs["Sample rate (Hz)"] = 1e9
+        f = lk.File(src)
+        out = os.path.join(d, "b.h5")
+        pats = case["pats"]
+        f.save_as(out, omit_data=(pats[0] if len(pats) == 1 else set(pats)) if pats else None, verbose=False)
+        with h5py.File(out, "r") as g:
+            res = tree_status(f.h5, g, case["tree"])
+        f.h5.close()
+        return [res]
     finally:
         shutil.rmtree(d, ignore_errors=True)
 
@@ -680,6 +724,9 @@ def _file_impl(case):
                                     flags.append(p in g and dict_equal(dict(node_src.attrs), dict(g[p].attrs)))
                             answers.append(enc_list(flags, enc_bool))
                             obs["omit_compare"] = compare_uncropped(f.h5, g, case["all_paths"], flags)
+                    elif kind == "omittree":
+                        with h5py.File(out, "r") as g:
+                            answers.append(tree_status(f.h5, g, case["tree"]))
                     elif kind in ("crop", "cropread", "cropread2"):
                         if new is None:
                             new = lk.File(out)
@@ -717,6 +764,36 @@ def _file_impl(case):
         return answers
     finally:
         shutil.rmtree(d, ignore_errors=True)
+
+
+def tree_status(hsrc, hnew, tree):
+    """per source node: A absent, E written with its attributes, I present but bare, P present (a group that has no
+    attributes in the source: E and I look the same)"""
+    out = []
+    for path, kind, has_attrs in tree:
+        if path not in hnew:
+            out.append("A")
+        elif kind == "d":
+            out.append("E")
+        elif not has_attrs:
+            out.append("P")
+        else:
+            out.append("E" if dict_equal(dict(hsrc[path].attrs), dict(hnew[path].attrs)) else ("I" if len(hnew[path].attrs) == 0 else "partial-attributes"))
+    return "[" + ",".join(out) + "]"
+
+
+def tree_oracle(tree, pats, ans):
+    """save_as reproduces every dataset and attribute except omitted paths"""
+    got = ans.strip("[]").split(",") if ans != "[]" else []
+    if len(got) != len(tree):
+        return f"omit: {ans}"
+    for (path, kind, has_attrs), st in zip(tree, got):
+        omitted = any(_fnmatch.fnmatchcase(path, q) for q in pats)
+        if not omitted and st not in ("E", "P"):
+            return f"save_as(omit={pats}): {path} is not omitted but is {st} in the new file"
+        if omitted and (st == "E" or (kind == "d" and st != "A")):
+            return f"save_as(omit={pats}): {path} is omitted but is {st} in the new file"
+    return None
 
 
 def dict_equal(a, b):
@@ -850,6 +927,8 @@ def oracle(case, ia):
             return None  # no sample: no time range to speak of
         want = applicable(case["groups"], case["ch"], smp[0][0], smp[-1][0] + (e["dt"] if e["kind"] == "cont" else 1))
         return None if ia[0] == enc_list(want) else f"calibration: channel {case['ch']}{case.get('win') or ''} lists groups {ia[0]}, applicable to its time range are {enc_list(want)}"
+    if k == "omittree":
+        return tree_oracle(case["tree"], case["pats"], ia[0])
     if k == "dset":
         # re-export without loss: what is read from the written dataset is the channel that was written
         e = case["src"]
@@ -962,6 +1041,10 @@ def _file_oracle(case, ia):
                 return f"save_as(omit={case['omit']}): exported flags {ans} for {case['all_paths']}, expected {enc_list(want, enc_bool)}"
             if obs.get("omit_compare"):
                 return "save_as without cropping: " + "; ".join(obs["omit_compare"][:3])
+        elif kind == "omittree":
+            r = tree_oracle(case["tree"], case["omit"], ans)
+            if r:
+                return r
         elif kind in ("crop", "cropread2"):
             a, b = case["crop"]
             if kind == "cropread2":
@@ -1000,6 +1083,9 @@ def _file_oracle(case, ia):
 
 
 def agree(case, i, ia, ma):
+    if ia.startswith("[") and ("P" in ia) and (case["op"] == "omittree" or (case["op"] == "file" and i < len(file_plan(case)) and file_plan(case)[i][1] == "omittree")):
+        a, m = ia.strip("[]").split(","), ma.strip("[]").split(",")
+        return len(a) == len(m) and all(x == y or (x == "P" and y in ("E", "I")) for x, y in zip(a, m))
     if case["op"] == "file":
         plan = file_plan(case)
         if i < len(plan) and plan[i][1] in ("crop", "cropread", "cropread2"):
@@ -1023,6 +1109,8 @@ def nontrivial(case, ia):
         return len(case["present"]) > 0
     if k in ("dset", "class"):
         return True
+    if k == "omittree":
+        return "A" in ia[0] or "I" in ia[0]
     if k == "calchan":
         return len(case["groups"]) > 0 and ia[0] != "[]"
     if k in ("cropread", "cropread2"):
@@ -1071,10 +1159,11 @@ def shrink(case):
 # ------------------------------------------------------------------ generators
 
 
-def all_paths(spec):
+def all_paths(spec, with_tree=False):
     """every dataset path, and every group that carries attributes, of the written file in visititems order.
     (A group without attributes that is omitted is re-created implicitly as the parent of a written dataset and
-    cannot be told apart from an exported one, so it is not an observable.)"""
+    cannot be told apart from an exported one, so it is not an observable.)
+    with_tree: also every node as [path, "d" | "g", has attributes]."""
     import h5py
 
     d = tempfile.mkdtemp(prefix="c05p_")
@@ -1084,15 +1173,16 @@ def all_paths(spec):
         names = []
         with h5py.File(p, "r") as f:
             f.visit(names.append)
+            tree = [[n, "d" if isinstance(f[n], h5py.Dataset) else "g", len(f[n].attrs) > 0] for n in names]
             names = [n for n in names if isinstance(f[n], h5py.Dataset) or len(f[n].attrs) > 0]
-        return names
+        return (names, tree) if with_tree else names
     finally:
         shutil.rmtree(d, ignore_errors=True)
 
 
 def finalize(case):
     case = dict(case)
-    case["all_paths"] = all_paths(case["spec"])
+    case["all_paths"], case["tree"] = all_paths(case["spec"], with_tree=True)
     return case
 
 
@@ -1349,6 +1439,16 @@ def cases(tier, rng):
         w = None if sub.chance(0.3) else sorted([sub.choice(pts), sub.choice(pts)])
         yield {"stream": "random", "op": "calchan", "groups": groups, "ch": sub.choice(["Force 1x", "Force 1x", "Force 2x"]), "src": e, "win": w, "subseed": i}
 
+    # ---- the whole output tree under omit patterns (nested groups with/without attributes, bare parents)
+    tree = [["A", "g", True], ["A/B", "g", True], ["A/B/y", "d", True], ["A/x", "d", True], ["C", "g", False], ["C/z", "d", True], ["D", "g", True]]
+    tpats = ["A", "A/B", "A/*", "*", "A/B/y", "A/x", "C", "C/z", "*/x", "?", "A/?", "*y", "D", "*/*/*", "A*", "Nope"]
+    yield {"stream": "small-scope", "op": "omittree", "pats": [], "tree": tree}
+    for tp in tpats:
+        yield {"stream": "small-scope", "op": "omittree", "pats": [tp], "tree": tree}
+    for tp, tq in itertools.combinations(tpats[:9], 2):
+        if not quick or (len(tp) + len(tq)) % 2 == 0:
+            yield {"stream": "small-scope", "op": "omittree", "pats": [tp, tq], "tree": tree}
+
     # ---- channels by attribute: the whole table on a file with every channel, with none, with each one missing,
     #      and on random subsets
     uni = [p for p, _ in attr_universe()]
@@ -1423,6 +1523,9 @@ def extra_coverage(results):
             hit("dt:" + ("<=1e5" if c["dt"] <= 10**5 else "<=1e9" if c["dt"] <= 10**9 else "<=2^50"))
         elif c["op"] == "dtr":
             hit("dtr:arbitrary-rate")
+        elif c["op"] == "omittree":
+            for st in set(r["impl"][0].strip("[]").split(",")):
+                hit("omittree:some-node-" + st)
         elif c["op"] == "num":
             hit("num:" + c["what"])
         elif c["op"] == "dtu":
